@@ -202,7 +202,6 @@ Definition spec_job (c : tcase) : bool :=
 (** burst: at most maxRetries re-executions on top of the externally triggered runs *)
 Definition spec_burst (c : tcase) : bool :=
   Z.eqb (o_outcome c) 0
-  && (t_burst c <=? o_starts c)
   && (o_starts c - t_burst c <=? Z.max 0 (retries0 c)).
 
 Definition spec_ok (c : tcase) : bool :=
